@@ -58,7 +58,7 @@ def big_routes(rng, n):
 
 
 def str_routes(rng, s):
-    r = rng.below(6)
+    r = rng.below(10)
     esc = s
     if r == 0 or not s:
         return '(string-copy "%s")' % esc
@@ -71,6 +71,19 @@ def str_routes(rng, s):
         return '(let ((t (make-string %d #\\z))) %s t)' % (len(s), " ".join("(string-set! t %d #\\x%x)" % (i, ord(c)) for i, c in enumerate(s)))
     if r == 4:
         return '(substring "q%sq" 1 %d)' % (esc, len(s) + 1)
+    if r == 6:
+        # built in a buffer of wider characters: every string-set! narrows (or, for the widest, keeps) the encoding of its position
+        filler = rng.choice([0x3bb, 0x20ac, 0x1F600])
+        order = list(range(len(s)))
+        if rng.chance(1, 2):
+            order.reverse()
+        return '(let ((t (make-string %d #\\x%x))) %s t)' % (len(s), filler, " ".join("(string-set! t %d #\\x%x)" % (i, ord(s[i])) for i in order))
+    if r == 7:
+        return '(let ((t (make-string %d #\\x%x))) (string-copy! t 0 "%s") t)' % (len(s), rng.choice([0x3bb, 0x20ac, 0x1F600]), esc)
+    if r == 8:
+        return '(let ((o (open-output-string))) (write-string "%s" o) (write-string "%s" o) (get-output-string o))' % (s[:len(s) // 2], s[len(s) // 2:])
+    if r == 9:
+        return '(utf8->string (string->utf8 "%s"))' % esc
     return '"%s"' % esc
 
 
